@@ -501,6 +501,35 @@ func (e *specEnv) tr(x Expr) specVal {
 				}
 			}
 		}
+		if vc.qf > 0 {
+			allInt := true
+			for _, qv := range n.Vars {
+				if v := ne.vars[qv.Name]; v.typ != nil || v.kind != "int" {
+					allInt = false
+				}
+			}
+			if allInt {
+				// expand over a small range (candidate search only)
+				var parts []string
+				var rec func(k int, env *specEnv)
+				rec = func(k int, env *specEnv) {
+					if k == len(n.Vars) {
+						parts = append(parts, env.trBool(n.Body))
+						return
+					}
+					for x := -1; x < vc.qf+2; x++ {
+						e2 := env.clone()
+						e2.vars[n.Vars[k].Name] = mathInt(num(int64(x)))
+						rec(k+1, e2)
+					}
+				}
+				rec(0, ne)
+				if n.Forall {
+					return mathBool(and(parts...))
+				}
+				return mathBool(or(parts...))
+			}
+		}
 		body := ne.trBool(n.Body)
 		if n.Forall {
 			return mathBool(fmt.Sprintf("(forall (%s) %s)", strings.Join(bs, " "), implies(and(guards...), body)))
@@ -808,10 +837,16 @@ func (e *specEnv) specCall(sf *SpecFn, n *ECall) specVal {
 			psorts = append(psorts, vc.heapSort[hnm])
 			pnames = append(pnames, "h!"+sanitize(hnm))
 		}
-		vc.emit(fmt.Sprintf("(declare-fun %s (%s) %s)", fname, strings.Join(psorts, " "), resSort))
-		body := be.tr(sf.Body)
-		app := sx(fname, pnames...)
-		vc.emit(fmt.Sprintf("(assert (forall (%s) (! (= %s %s) :pattern (%s))))", strings.Join(binders, " "), app, body.term, app))
+		if vc.qf > 0 {
+			// define-fun-rec needs the body at declaration time: declare via forward reference trick
+			body := be.tr(sf.Body)
+			vc.emit(fmt.Sprintf("(define-fun-rec %s (%s) %s %s)", fname, strings.Join(binders, " "), resSort, body.term))
+		} else {
+			vc.emit(fmt.Sprintf("(declare-fun %s (%s) %s)", fname, strings.Join(psorts, " "), resSort))
+			body := be.tr(sf.Body)
+			app := sx(fname, pnames...)
+			vc.emit(fmt.Sprintf("(assert (forall (%s) (! (= %s %s) :pattern (%s))))", strings.Join(binders, " "), app, body.term, app))
+		}
 		delete(vc.specDecl, sf.Name+"#building")
 	}
 	var ts []string
